@@ -646,6 +646,12 @@ class CaseRun:
         self.lines: dict[tuple, int] = {}
         rng = random.Random(f"pop:{case['seed']}:{case['scenario']}:{case['worker']}:{pname}")
         nrounds = len(case["rounds"])
+        # bounded liveness in logical time, scaled with the size of the input (a 1 200-node chain legitimately needs
+        # a few hundred calls per node)
+        from kernel import STEP_BUDGET
+
+        nmax = max([len(g["nodes"]) for g in case["graphs"]] + [0])
+        budget = STEP_BUDGET + 5000 * nmax + 50 * nmax * nmax  # generous: it exists to catch non-termination
         for r, rnd in enumerate(case["rounds"]):
             scripts = rnd["scripts"]
             # ---- scheduler for this round
@@ -657,6 +663,7 @@ class CaseRun:
                     trace_nx=pop.get("trace_nx", False),
                     audit=audit,
                     notrace=pop.get("notrace", False),
+                    step_budget=budget,
                 )
             else:
                 aborts = []
@@ -689,6 +696,7 @@ class CaseRun:
                     trace_nx=pop.get("trace_nx", False),
                     audit=audit,
                     notrace=pop.get("notrace", False),
+                    step_budget=budget,
                 )
 
             def make_body(c: str, script: list) -> Callable[[Sched, str], None]:
